@@ -4,7 +4,6 @@ import (
 	"bytes"
 	"fmt"
 	"math"
-	"time"
 
 	"github.com/arloliu/go-secs/v2/secs2"
 
@@ -29,8 +28,8 @@ func init() {
 		},
 		Phases: func(tier string) []fw.Phase {
 			return []fw.Phase{
-				{Name: "plain", Shards: 16, Timeout: 25 * time.Minute},
-				{Name: "race", Race: true, Shards: 4, Timeout: 25 * time.Minute},
+				{Name: "plain", Shards: 16, Timeout: tierDur(tier, 6, 40)},
+				{Name: "race", Race: true, Shards: 4, Timeout: tierDur(tier, 6, 40)},
 			}
 		},
 		Worker:         c01Worker,
@@ -59,6 +58,9 @@ func c01Worker(env *fw.Env) {
 	for i := int64(0); i < total; i++ {
 		if !env.Mine(i) || !env.Want(i) {
 			continue
+		}
+		if env.Stop() {
+			break
 		}
 		c01One(env, i)
 	}
